@@ -19,7 +19,7 @@ var ioErrorSources = map[string]bool{
 	"(*encoding/xml.Decoder).Decode": true, "(*encoding/xml.Decoder).DecodeElement": true, "(*encoding/xml.Decoder).Token": true,
 	"(*encoding/xml.Decoder).RawToken": true, "(*encoding/xml.Decoder).Skip": true,
 	"invoke (encoding/xml.TokenReader).Token": true,
-	"(*encoding/xml.Encoder).Encode": true, "(*encoding/xml.Encoder).EncodeElement": true, "(*encoding/xml.Encoder).EncodeToken": true,
+	"(*encoding/xml.Encoder).Encode":          true, "(*encoding/xml.Encoder).EncodeElement": true, "(*encoding/xml.Encoder).EncodeToken": true,
 	"(*encoding/xml.Encoder).Flush": true, "(*encoding/xml.Encoder).Close": true,
 	"(*github.com/asticode/go-astits.Demuxer).NextData": true, "(*github.com/asticode/go-astits.Demuxer).NextPacket": true,
 	"(*github.com/asticode/go-astits.Demuxer).Rewind": true,
@@ -32,10 +32,10 @@ var ioErrorSources = map[string]bool{
 
 // allowed sentinel conversions: (function, source callee, sentinel variable) → reason
 var sentinelConversions = map[string]string{
-	"ReadFromSTL|readNBytes|io.EOF":                                                          "end of the TTI block sequence",
-	"readNBytes|io.ReadFull|io.EOF":                                                           "clean end of input before a block: reported to the caller as io.EOF itself",
-	"readNBytes|invoke (io.Reader).Read|io.EOF":                                               "clean end of input before a block: reported to the caller as io.EOF itself",
-	"TTMLInItems.UnmarshalXML|(*encoding/xml.Decoder).Token|io.EOF":                           "end of the in-memory <p> fragment",
+	"ReadFromSTL|readNBytes|io.EOF":                                 "end of the TTI block sequence",
+	"readNBytes|io.ReadFull|io.EOF":                                 "clean end of input before a block: reported to the caller as io.EOF itself",
+	"readNBytes|invoke (io.Reader).Read|io.EOF":                     "clean end of input before a block: reported to the caller as io.EOF itself",
+	"TTMLInItems.UnmarshalXML|(*encoding/xml.Decoder).Token|io.EOF": "end of the in-memory <p> fragment",
 	"ReadFromTeletext|(*github.com/asticode/go-astits.Demuxer).NextData|github.com/asticode/go-astits.ErrNoMorePackets": "end of the transport stream",
 	"teletextPID|(*github.com/asticode/go-astits.Demuxer).NextData|github.com/asticode/go-astits.ErrNoMorePackets":      "end of stream before any PMT: converted to ErrNoValidTeletextPID (non-nil)",
 }
